@@ -15,7 +15,7 @@ DecRRsG(buf, cur, n, acc, lc) ==
       ELSE LET rdl == U16(buf, e + 8) IN
         IF e + 10 + rdl > Len(buf) THEN [ok |-> FALSE]
         ELSE LET ty == U16(buf, e)
-                 rd == CanonMsgRdataG(buf, e + 10, rdl, ty, lc) IN
+                 rd == CanonMsgRdataGC(buf, e + 10, rdl, ty, U16(buf, e + 2), lc) IN
           IF rd = <<999>> THEN [ok |-> FALSE]
           ELSE DecRRsG(buf, e + 10 + rdl, n - 1,
                  Append(acc, [owner |-> LN(lc, o.name), type |-> ty, class |-> U16(buf, e + 2),
